@@ -24,7 +24,7 @@ COMPONENTS = {"real": ["collision.c searches (direct, line, tree, linetree), shu
 ASSUMPTIONS = ["integrator leapfrog with gravity off: one step = straight-line drift + search; the state the search sees is captured by a post_timestep_modifications callback and the documented boundary wrap is applied to it by the model",
                "pairs within a relative band of 1e-9 of the overlap / approach thresholds are don't-care",
                "with a mutating resolver a must-pair may be skipped iff one of its members was removed or already merged earlier in the same step (built-in behaviour: last_collision == t)"]
-PROBES = ["cluster_ge3", "simultaneous_collisions_sharing_particle", "pair_across_periodic_image", "giant_and_dust", "zero_radius", "orders_differ", "merges", "bounces", "tree_mode", "line_mode", "removed_then_remapped_index", "twins_planted"]
+PROBES = ["cluster_ge3", "simultaneous_collisions_sharing_particle", "pair_across_periodic_image", "giant_and_dust", "zero_radius", "orders_differ", "merges", "bounces", "tree_mode", "line_mode", "removed_then_remapped_index", "twins_planted", "backward_step_line_search"]
 
 MODES = ["direct", "line", "tree", "linetree"]
 
@@ -41,6 +41,8 @@ def generate(rng, tier, index):
     keep_sorted = c.choice([0, 1]) if mode in ("direct", "line") else 0
     ng = c.choice([0, 1, 1, 2]) if boundary == "periodic" else 0
     dt = 0.01
+    if mode in ("line", "linetree") and c.chance(0.35):
+        dt = -0.01          # backward integration: the paths of the last step run the other way (the overlap searches' velocity-sign convention is left alone)
     ps = []
     hid = [100]
     Lx, Ly, Lz = L * nx, L * ny, L * nz
@@ -359,6 +361,8 @@ def execute(case, ctx):
             must, maybe = detect(seen_state)
             if any(r == 0.0 for (h, x, y, z, vx, vy, vz, m, r) in seen_state):
                 probe("zero_radius")
+            if st == 0 and case["dt"] < 0:
+                probe("backward_step_line_search")
             if st == 0 and "twins" in case.get("structure", ()):
                 probe("twins_planted")
             rs = sorted(r for (h, x, y, z, vx, vy, vz, m, r) in seen_state)
